@@ -1,5 +1,159 @@
-import SmtpV.Model.Server
+import SmtpV.Proofs.ServerInv
 import SmtpV.Spec.Monitors
-/-! # C09 (theorems follow) -/
+/-!
+# C09 — AUTH is unreachable on insecure connections; the octets cross unaltered (server side)
+
+Proved here: on a connection where AUTH is not permitted `handleAuth` consults nothing and writes
+replies only; the base64 layer is exact (`decode ∘ encode = id` on all octet strings).  At-most-once and
+the TLS-state rules are part of the ordering monitor (Spec/Order.lean), judged on recorded traces; the
+whole-loop theorem is work in progress (see C03).
+-/
 namespace SmtpV.Props.C09
+open SmtpV SmtpV.Spec SmtpV.Server SmtpV.Reply
+
+def isWrite (e : Ev) : Prop := ∃ bs, e = .w bs
+
+/-- **C09_insecure_unreachable.**  Without TLS and without `AllowInsecureAuth` the AUTH command produces
+    replies only: no `Auth(mech)` call, no octet handed to a SASL mechanism, no state change. -/
+theorem C09_insecure_unreachable (s : S) (arg : Bytes) (h : authAllowed s = false) :
+    (∀ e ∈ (handleAuth s arg).1.evs, e ∈ s.evs ∨ isWrite e) ∧ (handleAuth s arg).1.c = s.c ∧
+    (handleAuth s arg).2 = false := by
+  have key : ∀ code enh t, (∀ e ∈ (reply s code enh t).evs, e ∈ s.evs ∨ isWrite e) ∧ (reply s code enh t).c = s.c := by
+    intro code enh t
+    refine ⟨?_, reply_c _ _ _ _⟩
+    intro e he
+    rw [reply_evs] at he
+    simp only [List.mem_append] at he
+    rcases he with he | he
+    · right; split at he
+      · simp at he
+      · simp at he; exact ⟨_, he⟩
+    · left; exact he
+  unfold handleAuth
+  split
+  · exact ⟨(key _ _ _).1, (key _ _ _).2, rfl⟩
+  split
+  · exact ⟨(key _ _ _).1, (key _ _ _).2, rfl⟩
+  split
+  · exact ⟨(key _ _ _).1, (key _ _ _).2, rfl⟩
+  · simp only [h, Bool.not_false, if_true]
+    exact ⟨(key _ _ _).1, (key _ _ _).2, trivial⟩
+
+/-! ### base64 -/
+
+theorem b64_char_facts : ∀ n : Fin 64, b64Val (b64Char n.val) = some n.val ∧ b64Char n.val ≠ 61 ∧
+    b64Char n.val ≠ CR ∧ b64Char n.val ≠ LF := by decide
+
+theorem b64Val_char (n : Nat) (h : n < 64) : b64Val (b64Char n) = some n := (b64_char_facts ⟨n, h⟩).1
+theorem b64Char_ne_pad (n : Nat) (h : n < 64) : (b64Char n == 61) = false := by
+  simpa using (b64_char_facts ⟨n, h⟩).2.1
+theorem b64Char_keep (n : Nat) (h : n < 64) : (b64Char n != CR && b64Char n != LF) = true := by
+  have := b64_char_facts ⟨n, h⟩
+  simp [this.2.2.1, this.2.2.2]
+
+theorem byte_ofNat (a : Byte) : UInt8.ofNat a.toNat = a := by simp
+
+def keep (b : Byte) : Bool := b != CR && b != LF
+
+theorem keep_char (n : Nat) (h : n < 64) : keep (b64Char n) = true := b64Char_keep n h
+theorem keep_pad : keep 61 = true := by decide
+
+/-- the encoder's output contains no CR or LF, so the decoder's filter leaves it alone -/
+theorem filter_encode (x : Bytes) : (b64Encode x).filter keep = b64Encode x := by
+  have hb : ∀ a : Byte, a.toNat < 256 := fun a => a.toNat_lt
+  fun_induction b64Encode x with
+  | case1 => rfl
+  | case2 a v =>
+    have := hb a
+    rw [List.filter_cons_of_pos (keep_char _ (by omega)), List.filter_cons_of_pos (keep_char _ (by omega)),
+      List.filter_cons_of_pos keep_pad, List.filter_cons_of_pos keep_pad]
+    rfl
+  | case3 a b v =>
+    have := hb a; have := hb b
+    rw [List.filter_cons_of_pos (keep_char _ (by omega)), List.filter_cons_of_pos (keep_char _ (by omega)),
+      List.filter_cons_of_pos (keep_char _ (by omega)), List.filter_cons_of_pos keep_pad]
+    rfl
+  | case4 a b c t v ih =>
+    have := hb a; have := hb b; have := hb c
+    rw [List.filter_cons_of_pos (keep_char _ (by omega)), List.filter_cons_of_pos (keep_char _ (by omega)),
+      List.filter_cons_of_pos (keep_char _ (by omega)), List.filter_cons_of_pos (keep_char _ (by omega)), ih]
+
+theorem decodeAux_encode (x : Bytes) (fuel : Nat) (hf : x.length < fuel) :
+    b64DecodeAux fuel (b64Encode x) = some x := by
+  have hb : ∀ a : Byte, a.toNat < 256 := fun a => a.toNat_lt
+  fun_induction b64Encode x generalizing fuel with
+  | case1 => cases fuel <;> simp_all [b64DecodeAux]
+  | case2 a v =>
+    have hv : v = a.toNat := rfl
+    clear_value v; subst hv
+    have := hb a
+    cases fuel with
+    | zero => simp at hf
+    | succ fuel =>
+      simp only [b64DecodeAux, b64Val_char (a.toNat / 4) (by omega), b64Val_char ((a.toNat % 4) * 16) (by omega)]
+      simp
+      have : (a.toNat / 4 * 64 + a.toNat % 4 * 16) / 16 = a.toNat := by omega
+      rw [this, byte_ofNat]
+  | case3 a b v =>
+    have hv : v = a.toNat * 256 + b.toNat := rfl
+    clear_value v; subst hv
+    have := hb a; have := hb b
+    cases fuel with
+    | zero => simp at hf
+    | succ fuel =>
+      simp only [b64DecodeAux, b64Val_char ((a.toNat * 256 + b.toNat) / 1024) (by omega),
+        b64Val_char (((a.toNat * 256 + b.toNat) / 16) % 64) (by omega),
+        b64Val_char (((a.toNat * 256 + b.toNat) % 16) * 4) (by omega),
+        b64Char_ne_pad (((a.toNat * 256 + b.toNat) % 16) * 4) (by omega)]
+      simp
+      have e1 : (((a.toNat * 256 + b.toNat) / 1024 * 64 + (a.toNat * 256 + b.toNat) / 16 % 64) * 64 +
+          (a.toNat * 256 + b.toNat) % 16 * 4) / 1024 = a.toNat := by omega
+      have e2 : (((a.toNat * 256 + b.toNat) / 1024 * 64 + (a.toNat * 256 + b.toNat) / 16 % 64) * 64 +
+          (a.toNat * 256 + b.toNat) % 16 * 4) / 4 % 256 = b.toNat := by omega
+      rw [e1, e2, byte_ofNat, byte_ofNat]
+      exact ⟨rfl, rfl⟩
+  | case4 a b c t v ih =>
+    have hv : v = (a.toNat * 256 + b.toNat) * 256 + c.toNat := rfl
+    clear_value v; subst hv
+    have := hb a; have := hb b; have := hb c
+    cases fuel with
+    | zero => simp at hf
+    | succ fuel =>
+      simp only [b64DecodeAux,
+        b64Val_char (((a.toNat * 256 + b.toNat) * 256 + c.toNat) / 262144) (by omega),
+        b64Val_char ((((a.toNat * 256 + b.toNat) * 256 + c.toNat) / 4096) % 64) (by omega),
+        b64Val_char ((((a.toNat * 256 + b.toNat) * 256 + c.toNat) / 64) % 64) (by omega),
+        b64Val_char (((a.toNat * 256 + b.toNat) * 256 + c.toNat) % 64) (by omega),
+        b64Char_ne_pad ((((a.toNat * 256 + b.toNat) * 256 + c.toNat) / 64) % 64) (by omega),
+        b64Char_ne_pad (((a.toNat * 256 + b.toNat) * 256 + c.toNat) % 64) (by omega)]
+      simp only [Bool.false_eq_true, if_false]
+      rw [ih fuel (by simp at hf; omega)]
+      simp only [Option.map_some]
+      have e0 : ((((a.toNat * 256 + b.toNat) * 256 + c.toNat) / 262144 * 64 +
+          ((a.toNat * 256 + b.toNat) * 256 + c.toNat) / 4096 % 64) * 64 +
+          ((a.toNat * 256 + b.toNat) * 256 + c.toNat) / 64 % 64) * 64 +
+          ((a.toNat * 256 + b.toNat) * 256 + c.toNat) % 64 = (a.toNat * 256 + b.toNat) * 256 + c.toNat := by omega
+      rw [e0]
+      have e1 : ((a.toNat * 256 + b.toNat) * 256 + c.toNat) / 65536 = a.toNat := by omega
+      have e2 : ((a.toNat * 256 + b.toNat) * 256 + c.toNat) / 256 % 256 = b.toNat := by omega
+      have e3 : ((a.toNat * 256 + b.toNat) * 256 + c.toNat) % 256 = c.toNat := by omega
+      rw [e1, e2, e3, byte_ofNat, byte_ofNat, byte_ofNat]
+
+theorem encode_length (x : Bytes) : x.length ≤ (b64Encode x).length := by
+  fun_induction b64Encode x <;> simp_all <;> omega
+
+/-- **C09_octets_exact.**  What the mechanism receives is exactly what the peer encoded: base64 decoding
+    inverts encoding on every octet string (empty and binary values included). -/
+theorem C09_b64_roundtrip (x : Bytes) : b64Decode (b64Encode x) = some x := by
+  unfold b64Decode
+  have : (b64Encode x).filter (fun b => b != CR && b != LF) = b64Encode x := filter_encode x
+  simp only [this]
+  exact decodeAux_encode x _ (by have := encode_length x; omega)
+
+/-- the `=` convention: an initial response written as `=` is the empty (non-nil) response -/
+theorem C09_empty_initial_response : decodeSASLResponse [61] = some [] := by decide
+
+example : b64Decode (b64Encode [0, 255, 254, 1]) = some [0, 255, 254, 1] := by decide +kernel
+example : b64Decode "A===".b = none := by decide +kernel
+
 end SmtpV.Props.C09
